@@ -21,7 +21,8 @@ REF = "ref_matcher.py"
 
 # reasoned exception to R6, keyed by construct
 R6_EXCEPTIONS = {
-    ("ZConfig.matcher.SchemaMatcher.finish", "self.type.datatype(v)"):
+    # keyed by function and the slot expression called (not its argument)
+    ("ZConfig.matcher.SchemaMatcher.finish", "self.type.datatype"):
         "no enclosing container exists; a ValueError of the schema-level "
         "datatype is an error raised by a datatype function itself (C07)",
 }
@@ -203,7 +204,7 @@ def run(ctx):
             if any(c.kind == "repo" and c.how in ("cha", "byname", "basecall")
                    for c in cs):
                 continue   # a method of that name, not a slot
-            key = (fi.qualname, src(n))
+            key = (fi.qualname, src(n.func))
             if key in R6_EXCEPTIONS:
                 run.ok("C01.R6", fi.qualname, src(n),
                        "reasoned exception: " + R6_EXCEPTIONS[key],
